@@ -152,11 +152,12 @@ def correspondence(ctx):
     exhaustive = {}
     try:
         # 1. exhaustive within a preemption bound
-        plan = ctx.budget([("2c", 1, 900), ("1c+bg", 1, 300)],
-                          [("2c", 2, 40000), ("1c+bg", 2, 20000), ("2c+bg", 1, 20000), ("3c", 1, 20000), ("2c", 3, 60000)])
-        for name, bound, cap in plan:
+        # (configuration, preemption bound, cap on schedules, share of the remaining time)
+        plan = ctx.budget([("2c", 1, 900, 0.3), ("1c+bg", 1, 300, 0.3)],
+                          [("1c+bg", 2, 20000, 0.1), ("2c", 2, 200000, 0.5), ("2c+bg", 1, 60000, 0.4), ("3c", 1, 60000, 0.5)])
+        for name, bound, cap, frac in plan:
             col = Collector(ctx, c, name + "/dfs%d" % bound)
-            share = time.time() + (t_end - time.time()) * ctx.budget(0.3, 0.18)
+            share = time.time() + (t_end - time.time()) * frac
             n, complete = ss.dfs(dict(CONFIGS[name]), bound, env, max_runs=cap, deadline=share, visit=col)
             col.flush()
             exhaustive["%s preemption<=%d" % (name, bound)] = dict(schedules=n, complete=complete)
